@@ -25,6 +25,29 @@ type S struct {
 	B []string
 }
 
+// asymmetric assignability: an implementation is assignable to its interface, a bidirectional
+// channel to a directional one, not the other way round
+type Shape interface{ Area() int }
+
+type Square struct{ W int }
+
+func (s *Square) Area() int { return s.W * s.W }
+
+var (
+	fRetIface  func(int) Shape
+	fTakesImpl func(*Square) int
+	fRetImpl   func(int) *Square
+	fTakesIfc  func(Shape) int
+	fRetRecv   func(int) <-chan int
+	fTakesChan func(chan int) int
+	fRetErrIfc func(int) (Shape, error)
+	fTakesImpE func(*Square) (int, error)
+	slShapes   []Shape
+	slSquares  []*Square
+	sq         *Square
+	shp        Shape
+)
+
 var (
 	i     int
 	s     string
@@ -54,6 +77,8 @@ var (
 
 var argTemplates = []string{"", "i", "i, i", "i, s", "i, i, i", "s, s", "b, b", "cx, cx", "sl", "sl, sl", "sl, sl2", "sl, i", "sl, s", "slb, b", "slc, cx", "slb", "slc",
 	"m", "m, m", "fn", "fn, sl", "fn, sl2", "fn, i", "fn, s", "fb, sl", "fb, sl2", "fn2", "fn2, i", "fnv", "fnv, i", "fcur", "f0", "f0, f0", "fs, s", "fn, fs",
+	"fRetIface, fTakesImpl", "fRetImpl, fTakesIfc", "fRetRecv, fTakesChan", "fRetErrIfc, fTakesImpE", "fTakesImpl, slShapes", "fTakesIfc, slSquares",
+	"slShapes, sq", "slSquares, shp", "slShapes, slSquares", "sq, shp", "shp, sq", "fTakesImpl, shp", "fTakesIfc, sq",
 	"ch", "ch, ch", "fn, ch", "chch", "iface", "iface, iface", "st, st", "pst, pst", "pst", "nil", "nil, nil", "err, fb", "ffe, sl", "fn, fn", "fn2, fn", "i, fn", "ffe, ffe", "sl, fn"}
 
 func templateScenario(id, prefix, args string) *Scenario {
